@@ -84,8 +84,9 @@ partial def decYaml : Sx → Option Yaml
   | .atom "null" => some .null
   | .atom "true" => some (.bool true)
   | .atom "false" => some (.bool false)
-  | .atom "tagged" => some .tagged
+  | .atom "tagged" => some (.tagged .null)
   | .atom s => (decodeStr s).map .str
+  | .list [.atom "tagged", y] => (decYaml y).map .tagged
   | .list [.atom "i", n] => (decInt n).map (fun i => .num (.int i))
   | .list [.atom "big", n, b, s] => do
     let n ← decNat n; let b ← decNat b; let s ← decStr s
